@@ -43,6 +43,7 @@ OBLIGATIONS = {
     "flag_preimage_mode": "the flag byte was checked in preimage mode",
     "s_boundary": "a (d,z,k) whose un-negated s is n//2, n//2+1, 2^255 or a neighbour was signed on secp256k1",
     "same_draw_pairs": "two signatures were made with the same scripted draw (exempt from the nonce-reuse clause)",
+    "entropy_source_fails": "signing was asked for while every entropy call (secrets.*, os.urandom) raises",
 }
 BOUND = {"quick": "3 small curves complete; secp256k1 deviation <= 2", "thorough": "6 small curves complete; secp256k1 full product"}
 FLAGS = [0x01, 0x02, 0x03, 0x81, 0x82, 0x83]
@@ -186,7 +187,62 @@ def chk_bytes(case):
     return out
 
 
-CASES = {"sign": chk_sign, "bytes": chk_bytes}
+def noent_pairs(seed):
+    """(key, digest) pairs for the failing-entropy environment: ordinary ones, same key / same digest, d and n-d, swapped
+    roles, and pairs whose minimal big-endian concatenation key||digest is the same byte string cut at another place"""
+    n = S.n
+    fz = int.from_bytes(filler(seed, "c01-rz", 32), "big")
+    a = bytes([0x3c]) + filler(seed, "c01-ne-a", 30)
+    c = bytes([0xe1]) + filler(seed, "c01-ne-c", 30)
+    b, b2 = b"\x5a", b"\x5a\x17"
+    I = lambda x: int.from_bytes(x, "big")
+    pairs = [(1, fz), (2, fz), (2, fz ^ 1), (n - 2, fz), (3, 0), (3, n), (fz % n, 3), (3, fz % n),
+             (I(a), I(b + c)), (I(a + b), I(c)),                      # a | bc   vs  ab | c
+             (I(a[:30]), I(b2 + c[:30])), (I(a[:30] + b2), I(c[:30])),
+             (I(a), I(c)), (I(a) << 8, I(c)), (I(a), I(c) << 8)]
+    return [[d, z] for d, z in pairs if 0 < d < n]
+
+
+def chk_noentropy(case):
+    """environment answer: the entropy source fails. Refusing to sign is fine; a signature that IS produced must satisfy
+    every clause, and two of them that differ in key or digest must not share r (no draw was repeated - none was given)"""
+    import os
+    import secrets
+    import bits.ecmath as em
+    exc = {"OSError": OSError(2, "No such file or directory: '/dev/urandom'"), "NotImplementedError": NotImplementedError()}[case["exc"]]
+
+    def fail(*a, **kw):
+        raise exc
+    names = [(secrets, "randbelow"), (secrets, "token_bytes"), (secrets, "randbits"), (secrets, "token_hex"), (secrets, "choice"),
+             (os, "urandom")]
+    saved = [(m, a, getattr(m, a)) for m, a in names]
+    sr = secrets.SystemRandom
+    got = []
+    try:
+        for m, a in names:
+            setattr(m, a, fail)
+        for d, z in case["pairs"]:
+            got.append(call(em.sign, d, z))
+    finally:
+        for m, a, v in saved:
+            setattr(m, a, v)
+    out, seen = [], {}
+    for (d, z), res in zip(case["pairs"], got):
+        if res[0] != "ok":
+            continue
+        r, s = res[1]
+        tag = f"sign(d={d:#x}, z={z:#x}) with a failing entropy source"
+        out += [(k.replace("C01/", "C01/no-entropy/"), m) for k, m in judge_rs(S, r, s, d, z, tag)]
+        for (d2, z2), r2 in seen.items():
+            if r2 == r and (d2, z2 % S.n) != (d, z % S.n):
+                cls = "same-digest" if z2 == z else "same-key" if d2 == d else "unrelated"
+                out.append((f"C01/nonce-reuse/no-entropy/{cls}", f"with a failing entropy source, signatures of (d={d2:#x}, z={z2:#x}) "
+                            f"and (d={d:#x}, z={z:#x}) share r={r:#x}"))
+        seen[(d, z)] = r
+    return out
+
+
+CASES = {"sign": chk_sign, "bytes": chk_bytes, "noent": chk_noentropy}
 
 
 def _concur_setup(case):
@@ -247,6 +303,9 @@ def run_case(kind, case):
         return chk_reuse(case)
     if kind == "concur":
         return chk_concur(case)
+    if kind == "histconcur":
+        from vf.runner import replay_histconcur
+        return replay_histconcur(run_case, PROPERTY, case, CONCUR_FILES, hist_ops)
     if kind == "interrupted":
         from vf import seqexplore
         return seqexplore.replay_interrupted(run_case, case)
@@ -255,6 +314,14 @@ def run_case(kind, case):
         return seqexplore.replay(run_case, case)
     return CASES[kind](case)
 
+
+def hist_ops(job):
+    """a long homogeneous history for E7: sign + verify under the keys of the small group in turn, a different message each time"""
+    cv = job["curve"]
+    C = smallcurve.curve(cv)
+    n = 1300 if job.get("tier") == "quick" else 4500
+    return [("bytes", {"curve": cv, "key": (1 + i % (C.n - 1)).to_bytes(32, "big").hex(), "msg": i.to_bytes(2, "big").hex(), "flag": 1,
+                       "preimage": False, "draws": [(i * 7 + 3) % C.n or 1]}) for i in range(n)]
 
 def long_ops(job):
     """sign + verify under EVERY secret key of the p=211 curve (198 keys): fills and wraps any bounded per-key cache"""
@@ -359,10 +426,14 @@ def jobs(tier, seed):
         js.append({"name": f"secp/sign/{sh}", "part": "real-sign", "shard": [sh, nsh], "weight": 3})
     js.append({"name": "secp/bytes", "part": "real-bytes", "weight": 6})
     js.append({"name": "secp/reuse", "part": "real-reuse", "weight": 10})
+    for exc in ("OSError", "NotImplementedError"):
+        js.append({"name": f"secp/noentropy/{exc}", "part": "real-noentropy", "exc": exc, "weight": 8})
     for sh in range(4):
         js.append({"name": f"secp/longmsg/{sh}", "part": "real-longmsg", "shard": [sh, 4], "weight": 6})
     from vf.runner import seq_jobs
     js += seq_jobs(4, curve=list(smallcurve.TABLE[0]), weight=4)
+    from vf.runner import histconcur_jobs
+    js += histconcur_jobs(curve=list(smallcurve.TABLE[0]))
     from vf.runner import long_jobs
     js += long_jobs(curve=list(smallcurve.TABLE[5]))
     from vf.runner import interrupt_jobs
@@ -373,6 +444,9 @@ def jobs(tier, seed):
 
 
 def run_job(job):
+    if job["part"] == "histconcur":
+        from vf.runner import run_histconcur_job
+        return run_histconcur_job(job, hist_ops(job), run_case, PROPERTY, CONCUR_FILES)
     if job["part"] == "longhist":
         from vf.runner import run_long_job
         return run_long_job(job, long_ops(job), run_case)
@@ -563,6 +637,12 @@ def run_job(job):
                               f"signatures of (d={ca['d']}, z={ca['z']:#x}) and (d={cb['d']}, z={cb['z']:#x}) share r "
                               f"although the random source gave different draws ({ka} vs {kb})")
         acc.sample({"reuse_pairs": len(sigs) * (len(sigs) - 1) // 2})
+    elif part == "real-noentropy":
+        pairs = noent_pairs(seed)
+        acc.evaluations += len(pairs)
+        acc.nontrivial += len(pairs)
+        acc.ob("entropy_source_fails", len(pairs))
+        acc.check("noent", {"pairs": pairs, "exc": job["exc"]}, chk_noentropy)
     return acc.result()
 
 
